@@ -34,6 +34,9 @@ func implStringD(v interface{}, depth int) string {
 	if depth > 40 {
 		return "<nested deeper than 40>"
 	}
+	if isFunc(v) {
+		return "fn"
+	}
 	switch x := v.(type) {
 	case nil:
 		return "null"
@@ -268,10 +271,12 @@ func (sr *sessRunner) stubs(into map[string]interface{}, names map[string]bool) 
 // goMap builds a fresh caller map from a model state.
 func (sr *sessRunner) goMap(m *runnerModel) map[string]interface{} {
 	out := map[string]interface{}{}
+	sr.stubs(out, m.stubs)
+	fnResolve = func(name string) interface{} { return out[name] } // a local may hold one of the map's own functions
 	for k, v := range m.this {
 		out[k] = v.toGo(sr.flavour + len(k))
 	}
-	sr.stubs(out, m.stubs)
+	fnResolve = nil
 	return out
 }
 
@@ -495,6 +500,26 @@ func (g *mgen) build(want int, d int) (*MNode, MV) {
 			return a, v
 		}
 		return &MNode{Op: nCall, Name: "rec", Kids: []*MNode{a}}, v
+	case choice == 4 && want == wNum && g.s.Intn(40) == 0:
+		// calls nested far deeper than anybody writes by hand (a generated formula), next to a sibling call
+		a, av := g.build(wNum, d+1)
+		if av.N < 0 {
+			av.N = -av.N
+		}
+		depth := []int{65, 130, 300, 520, 600, 1100}[g.s.Intn(6)]
+		n := a
+		for i := 0; i < depth; i++ {
+			n = &MNode{Op: nCall, Name: "abs", Kids: []*MNode{n}}
+		}
+		b, bv := g.build(wNum, d+1)
+		if bv.N < 0 {
+			bv.N = -bv.N
+		}
+		best := av
+		if bv.N > av.N {
+			best = bv
+		}
+		return &MNode{Op: nCall, Name: "max", Kids: []*MNode{n, {Op: nCall, Name: "abs", Kids: []*MNode{b}}}}, best
 	case choice == 4 && want == wNum && g.s.Intn(5) == 0: // a builtin: needs no data map, arguments left to right
 		a, av := g.build(wNum, d+1)
 		if g.s.Bool(1, 2) {
@@ -541,6 +566,24 @@ func (g *mgen) build(want int, d int) (*MNode, MV) {
 	case choice == 5:
 		n, v := g.build(want, d+1)
 		return &MNode{Op: nParen, Kids: []*MNode{n}}, v
+	case choice == 6 && want == wAny && g.s.Intn(12) == 0:
+		// an array literal far longer than anybody writes by hand, with a few elements that do something
+		cnt := []int{63, 64, 65, 66, 70, 127, 128, 129, 130, 200, 257, 300}[g.s.Intn(12)]
+		dyn := map[int]bool{cnt - 1: true, cnt - 2: true, g.s.Intn(cnt): true, 64 % cnt: true}
+		arr := &MNode{Op: nArray}
+		vals := []MV{}
+		for i := 0; i < cnt; i++ {
+			if dyn[i] {
+				k, v := g.build(wAny, d+1)
+				arr.Kids = append(arr.Kids, k)
+				vals = append(vals, v)
+				continue
+			}
+			v := mNum(int64(i % 10))
+			arr.Kids = append(arr.Kids, lit(v))
+			vals = append(vals, v)
+		}
+		return arr, mArr(vals)
 	case choice == 6 && want == wAny: // array literal: elements left to right
 		cnt := g.s.Intn(4)
 		arr := &MNode{Op: nArray}
@@ -577,6 +620,24 @@ func (g *mgen) build(want int, d int) (*MNode, MV) {
 			v = mNull()
 		}
 		return &MNode{Op: nCall, Name: "get", Kids: []*MNode{lit(mStr(key))}}, v
+	case choice == 9 && g.has("rec") && g.s.Intn(5) == 0:
+		// a function bound to a local and called through it; an argument may rebind the local - the
+		// callee was read before that
+		nm := sessLocals[g.s.Intn(len(sessLocals))]
+		bind := &MNode{Op: nAssign, Name: nm, Kids: []*MNode{{Op: nName, Name: "rec"}}}
+		g.m.setEntry(nm, MV{K: mkFn, S: "rec"}) // in evaluation order: the binding comes first
+		var arg *MNode
+		var v MV
+		if g.has("fail") && g.s.Bool(1, 2) {
+			rebind := &MNode{Op: nAssign, Name: nm, Kids: []*MNode{{Op: nName, Name: "fail"}}}
+			g.m.setEntry(nm, MV{K: mkFn, S: "fail"})
+			arg, v = g.build(want, d+1)
+			arg = &MNode{Op: nParen, Kids: []*MNode{{Op: nComma, Kids: []*MNode{rebind, arg}}}}
+		} else {
+			arg, v = g.build(want, d+1)
+		}
+		call := &MNode{Op: nCall, Name: nm, Kids: []*MNode{arg}}
+		return &MNode{Op: nParen, Kids: []*MNode{{Op: nComma, Kids: []*MNode{bind, call}}}}, v
 	case choice == 9 && g.has("evk") && g.s.Intn(3) == 0:
 		// a host function that evaluates another formula on this very runner, in the middle of this one
 		inner, v := g.build(want, d+1)
@@ -625,6 +686,16 @@ func (g *mgen) build(want int, d int) (*MNode, MV) {
 		a, av := g.build(1+g.s.Intn(3), d+1)
 		b, bv := g.build(1+g.s.Intn(3), d+1)
 		return &MNode{Op: nCall, Name: "pair", Kids: []*MNode{a, b}}, mArr([]MV{av, bv})
+	case (choice == 10 || choice == 3) && want == wBool && g.m.hasThis && g.m.this["tags"].K == mkArr && g.s.Bool(1, 2):
+		// a builtin with a typed list parameter over a long list of the caller's
+		it := []string{"vip", "t7", "new", "t39", "zz"}[g.s.Intn(5)]
+		found := false
+		for _, x := range g.m.this["tags"].A {
+			if x.K == mkStr && x.S == it {
+				found = true
+			}
+		}
+		return &MNode{Op: nCall, Name: "includes", Kids: []*MNode{{Op: nName, Name: "tags"}, lit(mStr(it))}}, mBool(found)
 	case choice == 10 && want != wAny:
 		// member of a nested data map
 		if o, ok := g.m.this["o"]; g.m.hasThis && ok && o.K == mkMap {
@@ -638,7 +709,7 @@ func (g *mgen) build(want int, d int) (*MNode, MV) {
 	case choice == 11 && g.bad && g.s.Bool(1, 3):
 		g.bad = false // at most one per formula
 		g.dead = true
-		targets := []string{"x", "o.a", "$a.b", "($a)", "1", "[$a]", "'s'", "true", "this", "null", "nosuch", "$a.$b", "x$", "y$a", "u$1", "_$a", "flag$"}
+		targets := []string{"x", "o.a", "$a.b", "($a)", "1", "[$a]", "'s'", "true", "this", "null", "nosuch", "$a.$b", "x$", "y$a", "u$1", "_$a", "flag$", "'$a'", "\"$b\"", "'$'", "'$total'"}
 		return &MNode{Op: nBadAssign, Raw: targets[g.s.Intn(len(targets))], Kids: []*MNode{lit(mNum(int64(g.s.Intn(9))))}}, mNull()
 	case choice == 11 && g.has("fail") && g.s.Bool(1, 4):
 		g.dead = true
@@ -742,6 +813,13 @@ func (sr *sessRunner) opSetThis(s *Stream) {
 			nm.this[n] = sr.randomValue(s)
 		}
 	}
+	if !empty && s.Intn(3) == 0 { // a long list of the caller's, which the caller edits in place later on
+		var tags []MV
+		for i := 0; i < 40; i++ {
+			tags = append(tags, mStr("t"+strconv.Itoa(i)))
+		}
+		nm.this["tags"] = mArr(tags)
+	}
 	for _, l := range sessLocals { // the new map may carry locals itself
 		if !empty && s.Intn(5) == 0 {
 			nm.this[l] = sr.randomValue(s)
@@ -774,6 +852,38 @@ func (sr *sessRunner) opCallerWrite(s *Stream) {
 	sr.m.this[key] = v
 	sr.hist = append(sr.hist, "CALLER-WRITES("+key+","+v.String()+")")
 	sr.rc.probe("caller_writes_into_its_map_between_operations")
+}
+
+// opCallerEditsList: the caller overwrites one element of a list inside the map it handed over.
+func (sr *sessRunner) opCallerEditsList(s *Stream) {
+	if sr.cur == nil || !sr.m.hasThis {
+		return
+	}
+	lst, ok := sr.cur["tags"].([]interface{})
+	mv, mok := sr.m.this["tags"]
+	if !ok || !mok || mv.K != mkArr || len(lst) != len(mv.A) || len(lst) == 0 {
+		return
+	}
+	sr.ops++
+	i := s.Intn(len(lst))
+	v := []string{"vip", "t7", "new", "t" + strconv.Itoa(i)}[s.Intn(4)]
+	// the list is looked at before the edit and again after it
+	look := &MNode{Op: nCall, Name: "includes", Kids: []*MNode{{Op: nName, Name: "tags"}, lit(mStr(v))}}
+	lookText := look.text(cxTop)
+	sr.hist = append(sr.hist, "EVAL(`"+lookText+"`)")
+	sr.evals++
+	sr.evalChecked(look, lookText, 0, false)
+	defer func() {
+		sr.hist = append(sr.hist, "EVAL(`"+lookText+"`)")
+		sr.evals++
+		sr.evalChecked(look, lookText, 0, false)
+	}()
+	lst[i] = v
+	na := append([]MV{}, mv.A...)
+	na[i] = mStr(v)
+	sr.m.this["tags"] = mArr(na)
+	sr.hist = append(sr.hist, "CALLER-EDITS(tags["+strconv.Itoa(i)+"],"+strconv.Quote(v)+")")
+	sr.rc.probe("caller_edits_a_list_element_in_place_between_operations")
 }
 
 func (sr *sessRunner) opSetVal(s *Stream) {
@@ -962,7 +1072,7 @@ func (sr *sessRunner) opEvalAgain() {
 		}
 	}
 	dry := &mEnv{m: sr.m.clone()}
-	if _, err := dry.eval(sr.last); err == errModelCond || err == errModelType {
+	if _, err := dry.eval(sr.last); err == errModelCond || err == errModelType || err == errModelNotFunc {
 		return
 	}
 	sr.ops++
@@ -1020,13 +1130,16 @@ func (sr *sessRunner) opEval(s *Stream, maxNodes, maxDepth int, faults bool, enu
 		for k := 1; k <= calls; k++ {
 			sh := &sessRunner{id: sr.id, r: formula.NewRunner(), m: sr.m.clone(), st: sr.st, fl: sr.fl, flavour: sr.flavour, prop: sr.prop, rc: sr.rc, tc: sr.tc, hist: append(append([]string{}, sr.hist...), "CLONE")}
 			sh.ctx = context.WithValue(context.Background(), "formulaRunner", sh.r)
-			for key, v := range sh.m.aux {
-				key, v := key, v
-				sh.api("Set("+key+")", func() { sh.r.Set(key, v.toGo(3)) })
-			}
 			if sh.m.hasThis {
 				sh.cur = sh.goMap(sh.m)
 				sh.api("SetThis(map)", func() { sh.r.SetThis(sh.cur) })
+			}
+			for key, v := range sh.m.aux {
+				key, v := key, v
+				fnResolve = func(name string) interface{} { return sh.cur[name] } // (a nil map reads as nil)
+				gv := v.toGo(3)
+				fnResolve = nil
+				sh.api("Set("+key+")", func() { sh.r.Set(key, gv) })
 			}
 			sh.evalChecked(n, text, k, true)
 			sr.shadow++
@@ -1133,8 +1246,10 @@ func runSessions(rc *RunCtx) {
 			case r < 9:
 				sr.opFetch(s)
 			case r < 10:
-				if k := s.Intn(3); k == 0 {
+				if k := s.Intn(4); k == 0 {
 					sr.opCallerWrite(s)
+				} else if k == 3 {
+					sr.opCallerEditsList(s)
 				} else if k == 1 {
 					sr.opEvalAgain()
 				} else {
